@@ -127,6 +127,7 @@ type SpecFile struct {
 	Consts    map[string]Clause
 	Order     []string
 	Ghosts    [][2]string
+	LockInvs  map[string]*PredDef // "Type.field" -> invariant with one parameter (the owner)
 }
 
 var clauseKeywords = map[string]bool{
@@ -134,7 +135,7 @@ var clauseKeywords = map[string]bool{
 	"pred": true, "spec": true, "lemma": true, "uses": true, "arith": true, "prop": true,
 	"callsite": true, "closure": true, "extern": true, "assert": true, "trusted": true,
 	"inline": true, "noinline": true, "pure": true, "const": true, "opaque": true, "fresh": true,
-	"end": true, "bounded": true, "pattern": true, "base": true, "ghost": true, "instance": true, "guarantee": true, "noframe": true,
+	"end": true, "bounded": true, "pattern": true, "base": true, "ghost": true, "instance": true, "guarantee": true, "noframe": true, "lockinv": true,
 }
 
 type rawClause struct {
@@ -461,6 +462,25 @@ func parseSpecFile(path string, pkgPath string) (*SpecFile, error) {
 				return nil, err
 			}
 			sf.Consts[strings.TrimSpace(rc.rest[:i])] = cl
+		case "lockinv":
+			// lockinv Type.field(x) = expr : monitor invariant of the lock field, assumed at Lock, proved at Unlock
+			name, params, rest, err := parseSig(rc.rest)
+			if err != nil {
+				return nil, fmt.Errorf("%s:%d: %v", path, rc.line, err)
+			}
+			rest = strings.TrimSpace(rest)
+			if !strings.HasPrefix(rest, "=") || len(params) != 1 {
+				return nil, fmt.Errorf("%s:%d: lockinv Type.field(x *Type) = expr", path, rc.line)
+			}
+			cl, err := mk(rc, strings.TrimSpace(rest[1:]))
+			if err != nil {
+				return nil, err
+			}
+			if sf.LockInvs == nil {
+				sf.LockInvs = map[string]*PredDef{}
+			}
+			sf.LockInvs[name] = &PredDef{Name: name, Params: params, Body: cl}
+			cur, top, curL, curE = nil, nil, nil, nil
 		case "pred":
 			// pred name(params) = expr
 			name, params, rest, err := parseSig(rc.rest)
